@@ -3,7 +3,7 @@ LEVEL = "other"
 F = "harness/c06_process.c"
 NHQ, NHT = 4, 5
 def P(name, entry, desc, nh, tiers, canaries=1, to=900, defs_extra=(), **kw):
-    n = nh + 2
+    n = nh + 6
     uw = [f"{entry}.{k}:{max(n, 2 * n) + 2}" for k in range(10)] + [
         f"idx.0:{n + 1}", f"idx_pl.0:{n + 1}", f"ghosts_reset.0:{n + 1}", "ghosts_reset.1:%d" % 14, "memmove.0:%d" % ((nh + 4) * 8 + 2),
         f"send_anti_messages.0:{nh + 2}", f"send_anti_messages.1:{nh + 2}", f"silent_execution.0:{nh + 2}", f"silent_execution.1:{nh + 2}",
@@ -15,7 +15,7 @@ def P(name, entry, desc, nh, tiers, canaries=1, to=900, defs_extra=(), **kw):
         f"handle_straggler_msg.0:{nh + 2}", f"handle_straggler_msg.1:{nh + 2}", f"handle_straggler_msg.2:{nh + 2}", f"handle_straggler_msg.3:{nh + 2}",
         f"fossil_lp_collect.0:{nh + 2}", f"fossil_lp_collect.1:{nh + 2}", f"fossil_lp_collect.2:{nh + 2}", f"process_lp_fini.0:{nh + 2}",
         f"handle_remote_anti_msg.0:{nh + 2}", f"handle_remote_anti_msg.1:{nh + 2}", f"handle_remote_anti_msg.2:{nh + 2}", f"handle_remote_anti_msg.3:{nh + 2}",
-        f"check_early_anti_messages.0:{nh + 2}", "memcmp.0:3"]
+        f"check_early_anti_messages.0:{nh + 2}", "memcmp.0:3"] + [f"h_remote_anti.{k}:{n + 2}" for k in range(10, 14)] + [f"h_early_anti.{k}:{n + 2}" for k in range(10, 14)]
     return H(name=f"{name}.nh{nh}", file=F, entry=entry, funcs=kw.pop("funcs"), kind="bounded", defs=(f"NH={nh}",) + tuple(defs_extra),
              bound=f"history of at most {nh} entries (any mix of processed / locally sent / remotely sent, any admissible flag words)",
              unwindset=tuple(uw), tiers=tiers, timeout=to, mem_gb=12, canaries=canaries, desc=desc, **kw)
@@ -29,6 +29,8 @@ def fam(nh, tiers):
       replace=("do_rollback",), defs_extra=("PM_MODULAR", f"PM_CASE={w}"))
     for w, what in ((0, "fresh valid event"), (1, "cancelled before being processed"), (3, "cancelled after being processed"))
 ] + [
+    P("C06.check_early_anti_messages", "h_early_anti", "early remote anti-messages (<= 3 pending): annihilation iff the full (id, seq) pair matches; exactly the matched node is unlinked and released, every other pending anti-message stays in order; the event is released iff annihilated", nh, tiers, canaries=2, funcs=["check_early_anti_messages"]),
+    P("C06.handle_remote_anti_msg", "h_remote_anti", "remote anti-message: found in the history -> one rollback to the start of its group, both buffers released once, termination told; not found -> parked, nothing released (do_rollback by contract)", nh, tiers, canaries=2, funcs=["handle_remote_anti_msg"], replace=("do_rollback",), defs_extra=("PM_MODULAR",)),
     P("C06.match_anti_msg", "h_match_anti", "rollback point = start of the group of the cancelled event (event boundary, nothing else undone needlessly)", nh, tiers, canaries=2, funcs=["match_anti_msg"]),
     P("C06.schedule", "h_schedule", "ScheduleNewEvent outside silent mode: one buffer, queued or sent once, recorded with the right tag", nh, tiers, funcs=["ScheduleNewEvent"]),
     P("C06.process_lp_fini", "h_lp_fini", "shutdown of an LP: each processed / remote entry released once, locally sent and cancelled-and-requeued ones not", nh, tiers, funcs=["process_lp_fini"]),
